@@ -465,10 +465,13 @@ func runC08(c *Ctx) {
 	R.Require("E6.flag", 32+21+15+2+7, "")
 	R.Require("E3.addition-len", 14, "")
 	R.Require("E3.addition-field", 20, "")
+	R.Rules["S.time-digits"] = "the time of a location report is rendered by utils.BCD2Time, which moves the BCD digits into the text without interpreting them (it calls nothing from time / strconv): the year is 20YY for every two-digit YY, and values that are not calendar dates are shown as they are"
+	c.bcdTimeHelpersRule("S.time-digits", []string{"BCD2Time"})
+	R.Require("S.time-digits", 1, "")
 	c.narrowArith(func(fn *ssa.Function) bool {
 		f := c.P.RelPos(fn.Pos())
 		return strings.Contains(f, "0x0200") || strings.Contains(f, "0x0704")
-	}, 3)
+	}, 3, false)
 	R.Explain = "Decided for all bodies: the base-block decoder reads each field at the standard's offset/width/byte order (symbolic extraction vs spec/location.json) and needs 28 bytes; each carrier passes it the right window; " +
 		"every alarm, status, extended-signal, IO and 苏标 vehicle-status flag is set exactly under a test of its own bit (semantic extraction, idiom independent); " +
 		"for each standard additional-information ID the accepted lengths equal the admissible ones and each value is read at the standard's offset inside the item; unknown IDs are kept verbatim. " +
